@@ -29,6 +29,7 @@ func init() {
 			{Name: "names", N: constN(90000, 1500000), Gen: c09GenNames, Eval: c09Eval},
 			{Name: "tokens_rand", N: constN(20000, 300000), Gen: c01GenTokensRand, Eval: c09Eval},
 			{Name: "models", N: constN(6000, 200000), Gen: genModelCase, Eval: c09EvalModel},
+			{Name: "bodyless", N: constN(6000, 150000), Gen: c09GenBodyless, Eval: c09Eval},
 		},
 		Floors: map[string]int64{"accepted": 3000},
 	})
@@ -360,4 +361,51 @@ func c09EvalModel(t *fw.T, c *fw.Case) {
 	c.Docs = []run.Doc{d}
 	c.Meta["class"] = "model"
 	c09Eval(t, c)
+}
+
+// c09GenBodyless: methods whose requests / responses have, in every combination, a body on the line, a Body child,
+// only Headers, or nothing: whatever is accepted must still satisfy "every request and response has a body".
+func c09GenBodyless(r *xrand.Rand, idx int, tier string) *fw.Case {
+	var sb strings.Builder
+	sb.WriteString("JSIGHT 0.3\nTYPE @t\n  {\"a\": 1}\n")
+	nm := r.Range(1, 3)
+	for m := 0; m < nm; m++ {
+		verb := []string{"GET", "POST", "PUT", "PATCH", "DELETE"}[r.Intn(5)]
+		fmt.Fprintf(&sb, "%s /m%d\n", verb, m)
+		if r.Chance(1, 2) {
+			switch r.Intn(5) {
+			case 0:
+				sb.WriteString("  Request @t\n")
+			case 1:
+				sb.WriteString("  Request\n    Headers\n      {\"h\": \"v\"}\n") // headers only
+			case 2:
+				sb.WriteString("  Request\n    Headers\n      {\"h\": \"v\"}\n    Body any\n")
+			case 3:
+				sb.WriteString("  Request any\n    Headers\n      {\"h\": \"v\"}\n")
+			default:
+				sb.WriteString("  Request\n    Body\n      {\"b\": 2}\n")
+			}
+		}
+		nr := r.Range(1, 4)
+		for k := 0; k < nr; k++ {
+			code := []string{"200", "201", "400", "404", "500"}[r.Intn(5)]
+			switch r.Intn(6) {
+			case 0:
+				sb.WriteString("  " + code + " any\n")
+			case 1:
+				sb.WriteString("  " + code + "\n    Headers\n      {\"h\": \"v\"}\n") // headers only: no body
+			case 2:
+				sb.WriteString("  " + code + "\n    Headers\n      {\"h\": \"v\"}\n    Body empty\n")
+			case 3:
+				sb.WriteString("  " + code + " @t\n    Headers\n      {\"h\": \"v\"}\n")
+			case 4:
+				sb.WriteString("  " + code + "\n    Body regex\n      /ab/\n")
+			default:
+				sb.WriteString("  " + code + " [@t] // note\n")
+			}
+		}
+	}
+	c := oneDocCase([]byte(sb.String()), "", "bodies in every combination")
+	c.Meta = map[string]string{"class": "bodyless"}
+	return c
 }
